@@ -198,7 +198,8 @@ def run(ctx):
     inst = install_probes(ctx)
     try:
         n = 0
-        for ktag, k in gen.scalar_corners() + [("k:lz%d" % z, (1 << (8 * (32 - z))) - 1) for z in range(1, 32)]:
+        lz_xy = [("K:x-leading-zero", k) for k in gen.leading_zero_x_scalars()] + [("K:y-leading-zero", k) for k in gen.leading_zero_y_scalars()]
+        for ktag, k in gen.scalar_corners() + [("k:lz%d" % z, (1 << (8 * (32 - z))) - 1) for z in range(1, 32)] + lz_xy:
             for how in ("bytes", "int", "from_int", "parse"):
                 n += 1
                 if ctx.mine(n):
